@@ -36,7 +36,8 @@ int main(int argc, char** argv) {
       for (int g = 0; g < 3; ++g) p.Ae[g] = r.U(-1, 1) * 300;
       // exact ties of the base point (benchmark shapes: 'all SUSY masses equal M_SUSY', bino = smuons, wino = higgsino): the arguments of the loop functions then
       // differ only by the electroweak terms and run into the degenerate branches as k grows
-      { const int tie = r.range(12); const double M = std::fabs(p.m1);
+      bool tied = false;
+      { const int tie = r.range(12); const double M = std::fabs(p.m1); tied = tie < 5;
         auto sg = [](double x) { return x < 0 ? -1.0 : 1.0; };
         if (tie == 0) { p.mu = sg(p.mu) * M; p.m2 = sg(p.m2) * M; p.m3 = sg(p.m3) * M; p.ma = M; p.Q = M; for (int g = 0; g < 3; ++g) { p.ml[g] = M; p.me[g] = M; p.mq[g] = M; p.mU[g] = M; p.mD[g] = M; } }
         else if (tie == 1) { p.ml[1] = M; p.me[1] = M; }
@@ -69,7 +70,7 @@ int main(int argc, char** argv) {
       ++o.conclusive;
       auto judge = [&](const std::string& name, int j, double stat, double limit, const std::string& what) {
          J w = c; w.str("clause", name).i("k", 1 << j).d("statistic", stat).d("limit", limit).arr("a1L", a1, a1 + NK).arr("a2L", a2, a2 + NK).arr("tan_beta_cor", t, t + NK).arr("delta2L", u, u + NK);
-         o.cell(name + "|k" + std::to_string(1 << j) + "|" + MODE[mode], stat / limit, &w);
+         o.cell(name + "|k" + std::to_string(1 << j) + "|" + MODE[mode] + (tied ? "|ties" : ""), stat / limit, &w);
          if (!(stat <= limit)) o.fail("C07:" + name, what + " at k=" + std::to_string(1 << j) + ": " + vh::num(stat) + " > " + vh::num(limit), w);
       };
       for (int j = 0; j + 1 < NK; ++j) {
@@ -102,10 +103,14 @@ int main(int argc, char** argv) {
          const double km = std::ldexp(1.0, j - 1), eps2 = std::pow(MZ / (km * mmin), 2);
          const double S2 = std::max({s2[j - 1], s2[j], s2[j + 1]});
          auto dd = [&](const double* x) { return std::fabs(x[j + 1] * std::ldexp(1.0, 2 * (j + 1)) - 2 * x[j] * std::ldexp(1.0, 2 * j) + x[j - 1] * std::ldexp(1.0, 2 * (j - 1))) / S2; };
+         // exactly tied left/right soft masses: the sfermion mixing angle is 45 degrees for every k (instead of falling like 1/k), and the corrections to the
+         // Barr-Zee sfermion terms are still of second order (the statistic falls by 4 per doubling of k) but with a coefficient up to 1.6 times the limit
+         // calibrated on generic points (158 eps2 at tan(beta) = 62, all soft masses equal; 1.5e5 tied families): the constant of the tied regime is 5 times larger
+         const double tf = tied ? 5 : 1;
          if (km >= 4) {
-            judge("2L-total-affine-in-ln-k", j, dd(a2), C2 * eps2 + 1e-9, "second difference of k^2 a2L / S2");
+            judge("2L-total-affine-in-ln-k", j, dd(a2), tf * C2 * eps2 + 1e-9, "second difference of k^2 a2L / S2");
             judge("2L-photonic-affine-in-ln-k", j, dd(aph), CP * eps2 + 1e-9, "second difference of k^2 a2L,photonic / S2");
-            judge("2L(a)-affine-in-ln-k", j, dd(a2a), CA * eps2 + 1e-9, "second difference of k^2 a2L(a) / S2");
+            judge("2L(a)-affine-in-ln-k", j, dd(a2a), tf * CA * eps2 + 1e-9, "second difference of k^2 a2L(a) / S2");
          } else { J w = c; o.cell("2L-total-second-difference(reported)|k" + std::to_string(1 << (j - 1)), dd(a2) / (C2 * eps2), &w); }
       }
       o.sample(c, 2);
